@@ -698,6 +698,11 @@ void generate_string_operations(StringBuilder *sb) {
     sb_append(sb, "    return nl_fmt_sb_build(&sb);\n");
     sb_append(sb, "}\n\n");
 
+    /* int / and %: INT64_MIN / -1 wraps to INT64_MIN (remainder 0) instead of trapping;
+     * division by zero stays the run-time error of the C operators */
+    sb_append(sb, "static inline int64_t nl_div_int(int64_t a, int64_t b) { return b == -1 ? (int64_t)(0 - (uint64_t)a) : a / b; }\n");
+    sb_append(sb, "static inline int64_t nl_mod_int(int64_t a, int64_t b) { return b == -1 ? 0 : a % b; }\n\n");
+
     /* Array operators (elementwise) */
     sb_append(sb, "static const char* nl_str_concat(const char* s1, const char* s2);\n");
     sb_append(sb, "static DynArray* nl_array_add(DynArray* a, DynArray* b);\n");
@@ -761,7 +766,7 @@ void generate_string_operations(StringBuilder *sb) {
     sb_append(sb, "    int64_t len = dyn_array_length(a);\n");
     sb_append(sb, "    DynArray* out = dyn_array_new(t);\n");
     sb_append(sb, "    switch (t) {\n");
-    sb_append(sb, "        case ELEM_INT: for (int64_t i=0;i<len;i++) dyn_array_push_int(out, dyn_array_get_int(a,i)/dyn_array_get_int(b,i)); break;\n");
+    sb_append(sb, "        case ELEM_INT: for (int64_t i=0;i<len;i++) dyn_array_push_int(out, nl_div_int(dyn_array_get_int(a,i), dyn_array_get_int(b,i))); break;\n");
     sb_append(sb, "        case ELEM_FLOAT: for (int64_t i=0;i<len;i++) dyn_array_push_float(out, dyn_array_get_float(a,i)/dyn_array_get_float(b,i)); break;\n");
     sb_append(sb, "        case ELEM_ARRAY: for (int64_t i=0;i<len;i++) dyn_array_push_array(out, nl_array_div(dyn_array_get_array(a,i), dyn_array_get_array(b,i))); break;\n");
     sb_append(sb, "        default: assert(false && \"nl_array_div: unsupported element type\");\n");
@@ -775,7 +780,7 @@ void generate_string_operations(StringBuilder *sb) {
     sb_append(sb, "    int64_t len = dyn_array_length(a);\n");
     sb_append(sb, "    DynArray* out = dyn_array_new(t);\n");
     sb_append(sb, "    switch (t) {\n");
-    sb_append(sb, "        case ELEM_INT: for (int64_t i=0;i<len;i++) dyn_array_push_int(out, dyn_array_get_int(a,i)%dyn_array_get_int(b,i)); break;\n");
+    sb_append(sb, "        case ELEM_INT: for (int64_t i=0;i<len;i++) dyn_array_push_int(out, nl_mod_int(dyn_array_get_int(a,i), dyn_array_get_int(b,i))); break;\n");
     sb_append(sb, "        case ELEM_ARRAY: for (int64_t i=0;i<len;i++) dyn_array_push_array(out, nl_array_mod(dyn_array_get_array(a,i), dyn_array_get_array(b,i))); break;\n");
     sb_append(sb, "        default: assert(false && \"nl_array_mod: unsupported element type\");\n");
     sb_append(sb, "    }\n");
@@ -811,25 +816,25 @@ void generate_string_operations(StringBuilder *sb) {
     sb_append(sb, "static DynArray* nl_array_div_scalar_int(DynArray* a, int64_t s) {\n");
     sb_append(sb, "    assert(a); assert(dyn_array_get_elem_type(a) == ELEM_INT);\n");
     sb_append(sb, "    int64_t len = dyn_array_length(a); DynArray* out = dyn_array_new(ELEM_INT);\n");
-    sb_append(sb, "    for (int64_t i=0;i<len;i++) dyn_array_push_int(out, dyn_array_get_int(a,i) / s);\n");
+    sb_append(sb, "    for (int64_t i=0;i<len;i++) dyn_array_push_int(out, nl_div_int(dyn_array_get_int(a,i), s));\n");
     sb_append(sb, "    return out;\n");
     sb_append(sb, "}\n\n");
     sb_append(sb, "static DynArray* nl_array_rdiv_scalar_int(int64_t s, DynArray* a) {\n");
     sb_append(sb, "    assert(a); assert(dyn_array_get_elem_type(a) == ELEM_INT);\n");
     sb_append(sb, "    int64_t len = dyn_array_length(a); DynArray* out = dyn_array_new(ELEM_INT);\n");
-    sb_append(sb, "    for (int64_t i=0;i<len;i++) dyn_array_push_int(out, s / dyn_array_get_int(a,i));\n");
+    sb_append(sb, "    for (int64_t i=0;i<len;i++) dyn_array_push_int(out, nl_div_int(s, dyn_array_get_int(a,i)));\n");
     sb_append(sb, "    return out;\n");
     sb_append(sb, "}\n\n");
     sb_append(sb, "static DynArray* nl_array_mod_scalar_int(DynArray* a, int64_t s) {\n");
     sb_append(sb, "    assert(a); assert(dyn_array_get_elem_type(a) == ELEM_INT);\n");
     sb_append(sb, "    int64_t len = dyn_array_length(a); DynArray* out = dyn_array_new(ELEM_INT);\n");
-    sb_append(sb, "    for (int64_t i=0;i<len;i++) dyn_array_push_int(out, dyn_array_get_int(a,i) % s);\n");
+    sb_append(sb, "    for (int64_t i=0;i<len;i++) dyn_array_push_int(out, nl_mod_int(dyn_array_get_int(a,i), s));\n");
     sb_append(sb, "    return out;\n");
     sb_append(sb, "}\n\n");
     sb_append(sb, "static DynArray* nl_array_rmod_scalar_int(int64_t s, DynArray* a) {\n");
     sb_append(sb, "    assert(a); assert(dyn_array_get_elem_type(a) == ELEM_INT);\n");
     sb_append(sb, "    int64_t len = dyn_array_length(a); DynArray* out = dyn_array_new(ELEM_INT);\n");
-    sb_append(sb, "    for (int64_t i=0;i<len;i++) dyn_array_push_int(out, s % dyn_array_get_int(a,i));\n");
+    sb_append(sb, "    for (int64_t i=0;i<len;i++) dyn_array_push_int(out, nl_mod_int(s, dyn_array_get_int(a,i)));\n");
     sb_append(sb, "    return out;\n");
     sb_append(sb, "}\n\n");
 
